@@ -59,6 +59,9 @@ class Timeout(BaseException):
     pass
 
 
+_EVENTS: list = []  # loop-head events of the parse in progress (cleared before every parse)
+
+
 # the largest legitimate count seen on the pinned tree is 56 iterations / 0.5 s for one parse; the
 # model bounds the count by a function of the number of input lines
 ITER_CAP = 5000
@@ -90,7 +93,7 @@ def setup(wd):
     XSH.env["XONSH_SUBPROC_RAISE_ERROR"] = False
     XSH.env["XONSH_SUBPROC_CMD_RAISE_ERROR"] = False
     XSH.env["RAISE_SUBPROC_ERROR"] = False
-    events = []
+    events = _EVENTS
 
     def controller(name, fields):
         if name == "recovery.iter":
@@ -215,6 +218,7 @@ def norm_tree(tree):
 
 def parse_one(XSH, src, ns):
     ex = XSH.execer
+    del _EVENTS[:]
     try:
         tree = ex.parse(src, ctx=set(ns) | set(dir(builtins)), mode="exec", filename="<verif-c03>")
         return (norm_tree(tree) if tree is not None else ("None", "None")), ""
@@ -261,6 +265,7 @@ def execute(ctx, src, shape):
     state["piped"] = {"cp": True}
     ns = fresh_ns()
     exc = ""
+    del _EVENTS[:]
     signal.setitimer(signal.ITIMER_REAL, 60)
     try:
         XSH.execer.exec(src, glbs=ns, locs=ns, filename="<verif-c03>")
